@@ -104,6 +104,8 @@ pub struct Knobs {
     pub after_none_pct: u32,
     /// percent of runs that inspect vars()
     pub inspect_pct: u32,
+    /// percent of runs in which the caller keeps iterating after error items
+    pub continue_pct: u32,
     pub max_steps: usize,
 }
 
@@ -182,6 +184,7 @@ impl Knobs {
             stop_early_pct: 0,
             after_none_pct: 0,
             inspect_pct: 0,
+            continue_pct: 0,
             max_steps: 256,
         }
     }
@@ -273,6 +276,11 @@ const IN_NAMES: [&str; 8] = ["A", "B", "CLK", "D", "EN", "SEL", "P", "RST"];
 const OUT_NAMES: [&str; 8] = ["Q", "R", "S", "T", "Y", "OUT", "F", "G"];
 const BIDIR_NAMES: [&str; 3] = ["IO", "BD", "BUS"];
 const VIRT_NAMES: [&str; 6] = ["V", "W", "VV", "U", "V2", "W2"];
+// second naming scheme: names that are prefixes of one another (binding is by exact name)
+const IN_NAMES_P: [&str; 8] = ["D", "D1", "D10", "DA", "D_", "DD", "D1A", "D2"];
+const OUT_NAMES_P: [&str; 8] = ["Q", "Q1", "Q10", "QA", "Q_", "QQ", "Q1A", "Q2"];
+const BIDIR_NAMES_P: [&str; 3] = ["IO1", "IO", "IO10"];
+const VIRT_NAMES_P: [&str; 6] = ["V", "V1", "V10", "VV", "V_", "V1A"];
 const EXOTIC: [&str; 6] = ["A-1", "~RST", "B[0]", "9", "ALU-~OE", "x.y"];
 const VARS: [&str; 8] = ["a", "b", "i", "j", "k", "m", "n", "t"];
 
@@ -324,6 +332,12 @@ impl<'k> Gen<'k> {
         let mut sigs = vec![];
         let mut exotic_left: Vec<&str> = EXOTIC.to_vec();
         self.rng.shuffle(&mut exotic_left);
+        let prefixy = self.rng.chance(1, 4);
+        let (in_names, out_names, bidir_names, virt_names) = if prefixy {
+            (IN_NAMES_P, OUT_NAMES_P, BIDIR_NAMES_P, VIRT_NAMES_P)
+        } else {
+            (IN_NAMES, OUT_NAMES, BIDIR_NAMES, VIRT_NAMES)
+        };
         for i in 0..n_in {
             let bits = if self.k.probe_inputs && i == 0 {
                 62
@@ -333,7 +347,7 @@ impl<'k> Gen<'k> {
             let name = if self.k.exotic_names && i > 0 && self.rng.chance(1, 8) {
                 exotic_left.pop().unwrap().to_string()
             } else {
-                IN_NAMES[i as usize].to_string()
+                in_names[i as usize].to_string()
             };
             let default = self.gen_default(bits);
             sigs.push(SigSpec {
@@ -343,12 +357,15 @@ impl<'k> Gen<'k> {
                 default,
             });
         }
+        let output_n = self.k.shadow_outputs && self.rng.chance(1, 12);
         for i in 0..n_out {
             let bits = *self.rng.pick(&self.k.widths);
-            let name = if self.k.exotic_names && i > 1 && self.rng.chance(1, 8) {
+            let name = if output_n && i == 0 {
+                "n".to_string()
+            } else if self.k.exotic_names && i > 1 && self.rng.chance(1, 8) {
                 exotic_left.pop().unwrap().to_string()
             } else {
-                OUT_NAMES[i as usize].to_string()
+                out_names[i as usize].to_string()
             };
             sigs.push(SigSpec {
                 name,
@@ -361,7 +378,7 @@ impl<'k> Gen<'k> {
             let bits = *self.rng.pick(&self.k.widths);
             let default = self.gen_default(bits);
             sigs.push(SigSpec {
-                name: BIDIR_NAMES[i as usize].to_string(),
+                name: bidir_names[i as usize].to_string(),
                 bits,
                 kind: SigKind::Bidir,
                 default,
@@ -381,7 +398,7 @@ impl<'k> Gen<'k> {
         self.signals = sigs;
 
         let nv = self.between(self.k.n_virtual);
-        self.virtual_names = VIRT_NAMES[..nv as usize]
+        self.virtual_names = virt_names[..nv as usize]
             .iter()
             .map(|s| s.to_string())
             .collect();
@@ -760,7 +777,14 @@ impl<'k> Gen<'k> {
                 (Expr::random(Expr::Num(1i64 << s)), s as u32)
             }
             _ => {
-                let (e, _) = self.gen_expr(depth, cx);
+                // the bound is itself computed; sometimes from another draw (nested random:
+                // ordered by data dependency, so the order of the two draws is defined)
+                let (e, _) = if self.rng.chance(1, 3) {
+                    let k = self.rng.range(2, 300);
+                    (Expr::random(Expr::Num(k)), 9)
+                } else {
+                    self.gen_expr(depth, cx)
+                };
                 let bits = *self.rng.pick(&[1u32, 2, 4, 8]);
                 let b = Expr::bin(
                     BinOp::Add,
@@ -1104,9 +1128,17 @@ impl<'k> Gen<'k> {
                     let (bound, iters) = self.gen_bound();
                     let mut pool: Vec<&str> = VARS.to_vec();
                     self.rng.shuffle(&mut pool);
-                    let var = pool[0].to_string();
+                    let mut var = pool[0].to_string();
                     if self.is_output_name(&var) {
                         continue;
+                    }
+                    // a counter named like a device output: inside the loop the name means
+                    // the counter, after the loop it means the output again
+                    if self.k.shadow_outputs && !self.readable.is_empty() && self.rng.chance(1, 8) {
+                        let o = self.rng.pick(&self.readable).name.clone();
+                        if Some(&o) != self.done_sig.as_ref() && self.lookup(&o).is_none() {
+                            var = o;
+                        }
                     }
                     let inner_budget = if iters == 0 { 4 } else { left / iters };
                     if inner_budget == 0 {
@@ -1411,5 +1443,6 @@ pub fn gen_case(rng: Rng, knobs: &Knobs) -> Case {
         run_static: false,
         inspect,
         max_steps: knobs.max_steps,
+        continue_after_error: rng.chance(knobs.continue_pct as u64, 100),
     }
 }
